@@ -115,6 +115,17 @@ func ParseRaceReports(text string) []RaceReport {
 				continue
 			}
 			lastFunc = t
+			if strings.Contains(t, "harness.scribbleSpare") {
+				// the harness writing into the capacity beyond the length of a slice the
+				// library returned (what append does in place): the memory is the library's
+				const loc = "<capacity beyond the length of a returned slice>"
+				if stack == 0 && rep.A == "" {
+					rep.A, rep.FuncA = loc, "append in place by the caller"
+				}
+				if stack == 1 && rep.B == "" {
+					rep.B, rep.FuncB = loc, "append in place by the caller"
+				}
+			}
 		}
 		rep.HasLib = rep.A != "" || rep.B != ""
 		out = append(out, rep)
